@@ -92,7 +92,7 @@ func vSameShape(got ast.Type, expected ast.Type) bool {
 // allocation of the diagnostics the recursive call builds.)
 
 /*@ func (self *Analyzer) TypeCheck
-    serves C03
+    serves C03, C02
     assume-safety
     split got.Kind() in 0..14
     assumepre TypeCheck
